@@ -250,7 +250,7 @@ impl<T: ?Sized, R> RwLock<T, R> {
 }
 
 impl<T: ?Sized, R: RawRwLock> RwLock<T, R> {
-	pub fn scoped_read<'a, Ret>(&'a self, key: impl Keyable, f: impl Fn(&'a T) -> Ret) -> Ret {
+	pub fn scoped_read<Ret>(&self, key: impl Keyable, f: impl Fn(&T) -> Ret) -> Ret {
 		unsafe {
 			// safety: we have the key
 			self.raw_read();
@@ -271,10 +271,10 @@ impl<T: ?Sized, R: RawRwLock> RwLock<T, R> {
 		}
 	}
 
-	pub fn scoped_try_read<'a, Key: Keyable, Ret>(
-		&'a self,
+	pub fn scoped_try_read<Key: Keyable, Ret>(
+		&self,
 		key: Key,
-		f: impl Fn(&'a T) -> Ret,
+		f: impl Fn(&T) -> Ret,
 	) -> Result<Ret, Key> {
 		unsafe {
 			// safety: we have the key
@@ -298,7 +298,7 @@ impl<T: ?Sized, R: RawRwLock> RwLock<T, R> {
 		}
 	}
 
-	pub fn scoped_write<'a, Ret>(&'a self, key: impl Keyable, f: impl Fn(&'a mut T) -> Ret) -> Ret {
+	pub fn scoped_write<Ret>(&self, key: impl Keyable, f: impl Fn(&mut T) -> Ret) -> Ret {
 		unsafe {
 			// safety: we have the key
 			self.raw_write();
@@ -319,10 +319,10 @@ impl<T: ?Sized, R: RawRwLock> RwLock<T, R> {
 		}
 	}
 
-	pub fn scoped_try_write<'a, Key: Keyable, Ret>(
-		&'a self,
+	pub fn scoped_try_write<Key: Keyable, Ret>(
+		&self,
 		key: Key,
-		f: impl Fn(&'a mut T) -> Ret,
+		f: impl Fn(&mut T) -> Ret,
 	) -> Result<Ret, Key> {
 		unsafe {
 			// safety: we have the key
